@@ -260,9 +260,21 @@ pub fn main(args: &[String]) {
                     let ra = run_parser(&a);
                     let mh = hex(&marker);
                     let want_prefix = format!("OK {} ", a.len());
-                    if !ra.starts_with(&want_prefix) || ra.matches(&mh).count() != 1 {
+                    if !ra.starts_with(&want_prefix) || ra.matches(&mh).count() > 1 {
                         // this position constrains its content (entry names, INBOX folding, ...) or shows it twice: not a free literal
                         continue;
+                    }
+                    // a position the value does not show at all (header field names of a body section) must still be
+                    // skipped over by its length, the value staying as it is; a position whose content is interpreted
+                    // (an ACL rights string) is not a free literal.  Told apart by a second marker.
+                    if ra.matches(&mh).count() == 0 {
+                        let other = format!("\u{1}<KRAM-{}-{}>\u{2}", k, rng.below(1000000)).into_bytes();
+                        let ao = build(&other);
+                        let ro = run_parser(&ao);
+                        let strip = |s: &str| s.splitn(3, ' ').nth(2).unwrap_or("").to_string();
+                        if !ro.starts_with("OK ") || strip(&ro) != strip(&ra) {
+                            continue;
+                        }
                     }
                     let base = &ra[want_prefix.len()..];
                     // is this a byte-string field (any CHAR8 content) or a text field (the library's type is str: only
